@@ -34,6 +34,10 @@ def alphabet(tier):
     for d in ["R1g", "R2g", "R1fs", "GSB"]:
         for t in ["p1", "p2", None]:
             add("pathways", d, t, "A")
+    # legal but falsy tags (an enumerate() index, an empty label)
+    add("pathways", "R1g", 0, "B")
+    add("pathways", "R1g", "", "A")
+    add("pathways", "R2g", 0, "A")
     add("pathways", "R1g", "p1", "B")
     add("pathways", "R2g", "p2", "B")
     for d in ["R1g", "R2g", "R3fs", sig[0]]:
